@@ -727,6 +727,7 @@ class ObjectDomain(LazyGenerators, EffectDomain):
             ok = len(found) == 1 and isinstance(found[0][0], (ast.Assign, ast.AnnAssign)) and isinstance(found[0][1], ast.Name) and getattr(found[0][0], "_func", None) is None \
                 and getattr(found[0][0], "_class", None) is None and (isinstance(found[0][0].value, self._LITERAL_NODES) or self._pure_constructor(found[0][0].value)
                                                                       or (isinstance(found[0][0].value, (ast.DictComp, ast.ListComp, ast.SetComp)) and self._pure_expression(found[0][0].value))
+                                                                      or (isinstance(found[0][0].value, ast.Attribute) and dotted(found[0][0].value) in self.CALLED_BY_NAME)   # NAME = operator.truth
                                                                       or self._made_by_repo_function(mod, found[0][0].value))
             cache[name] = found[0][0].value if ok else None
         expr = cache[name]
@@ -737,6 +738,28 @@ class ObjectDomain(LazyGenerators, EffectDomain):
                     cache.setdefault("<consumers>", set()).add(name)
         if name in cache.get("<consumers>", ()):
             return [val(("builtin", "<consume>"), st)]
+        if expr is None and not any(isinstance(s_, (ast.Assign, ast.AnnAssign)) and any(isinstance(t_, ast.Name) and t_.id == name for t_ in (s_.targets if isinstance(s_, ast.Assign) else [s_.target]))
+                                    for s_ in tree.body):
+            # from .module import NAME: what NAME is in that module of the repository (a table, a partial, a made function ...)
+            repo = getattr(self.classes, "repo", None)
+            for s_ in tree.body:
+                if not isinstance(s_, ast.ImportFrom) or repo is None:
+                    continue
+                for al in s_.names:
+                    if (al.asname or al.name) != name:
+                        continue
+                    base = mod.name.split(".")
+                    is_pkg = getattr(mod, "path", "").endswith("__init__.py")
+                    target = ".".join(base[: len(base) - s_.level + (1 if is_pkg else 0)] + ([s_.module] if s_.module else [])) if s_.level else (s_.module or "")
+                    src = repo.modules.get(target)
+                    if src is None or getattr(src, "tree", None) is None or src is mod:
+                        return None
+                    from .absint import Frame
+                    holder = ast.parse("def _module_body():\n    pass").body[0]
+                    holder._module, holder._parent, holder._class = src, src.tree, None
+                    frame2 = Frame(holder, fr.depth + 1, None, name=f"<module {target}>", is_method=False)
+                    frame2.caller = fr
+                    return self._module_table(interp, al.name, st, frame2)
         if expr is None:
             # NAME = BaseException.__repr__ / object.__str__ ...: the builtin, called with the object as its argument
             for s_ in tree.body:
